@@ -388,7 +388,10 @@ def run(ctx):
              "operator); f32 primitive operations on bit patterns; "
              "each case = one compiled-JSON story run by the real runtime vs vm_compute of the model; "
              "plus random .ink expression trees (depth <= 3, fully parenthesised, scalar literals, all operators and "
-             "built-in functions) compiled and played by the real code vs Spec.spec_eval on the source tree",
+             "built-in functions) compiled and played by the real code vs Spec.spec_eval on the source tree; "
+             "the implementation's LIST_RANGE (int and list bounds, incl. bound lists with several values on either side), "
+             "ListName(n), LIST_MIN / LIST_MAX and list +- int results compared with Spec/ListSpec.v "
+             "(s_range_b, s_from_int, s_min_list / s_max_list, s_shift)",
         samples=[dict(op=cases[0][0], args=cases[0][1]), dict(op=cases[len(cases) // 2][0], args=cases[len(cases) // 2][1])]
         if n_native else [],
         traces_validated_against_impl=n_native + n_cmd + n_f32 + n_chain,
@@ -423,7 +426,7 @@ def run(ctx):
 def replay(ctx, payload):
     exe = vlib.build_harness()
     r = payload.get("replay", {})
-    ms = r.get("mismatches") or ([r] if r.get("op") else [])
+    ms = r.get("mismatches") or ([r] if r.get("op") or r.get("stream") else [])
     n = 0
     for m in ms:
         if m.get("stream") == "cmd" and m.get("content"):
